@@ -406,6 +406,14 @@ fn schemas() -> Vec<Schema> {
         Schema {
             // as above, and the clashing columns have ONE type: a data column of a is named like (and typed like) the
             // key column of b; key names differ
+            // two tables of ONE type joined on crossed keys (s = d', d = s': "reciprocal edges"); every column is a key
+            id: "k2-swap",
+            a: vec![nul(), cs("s", UINT8, &[], Role::Key(0)), cs("d", UINT8, &[], Role::Key(1))],
+            b: vec![nul(), cs("s", UINT8, &[], Role::Key(1)), cs("d", UINT8, &[], Role::Key(0))],
+            keys: vec![("s".into(), "d".into()), ("d".into(), "s".into())],
+            dom: vec![vec![vec![0], vec![1]], vec![vec![1], vec![0]], vec![vec![1], vec![1]], vec![vec![2], vec![5]]],
+        },
+        Schema {
             id: "k1-cross-same",
             a: vec![nul(), cs("ida", UINT8, &[], Role::Key(0)), cs("idb", UINT8, &[], Role::Pay)],
             b: vec![nul(), cs("idb", UINT8, &[], Role::Key(0)), cs("pb", BIT, &[3], Role::Pay)],
@@ -1338,6 +1346,16 @@ fn comp_tasks(thorough: bool, seed: u64) -> Vec<CompTask> {
                 cfgs: vec![(ocs[0].clone(), vec![(2, 1)])],
                 alternate_junk: false,
             },
+            // F: identical table types, crossed key map
+            Variant {
+                sid: "k2-swap",
+                masked: false,
+                jts: JTS.to_vec(),
+                alpha: vec![nul(1), live(0, 3, 1), live(1, 3, 1), live(2, 3, 1)],
+                alpha22: None,
+                cfgs: [0usize, 1].iter().map(|i| (ocs[*i].clone(), vec![(2, 2)])).collect(),
+                alternate_junk: false,
+            },
             // D: a two-bit key (rows of the padded cuckoo table collide with real keys with probability 1/4)
             Variant {
                 sid: "kb-eq",
@@ -1377,6 +1395,15 @@ fn comp_tasks(thorough: bool, seed: u64) -> Vec<CompTask> {
                 masked: false,
                 jts: vec![JoinType::Inner, JoinType::Left, JoinType::Union],
                 alpha: vec![nul(1), live(0, 1, 1), live(1, 1, 1)],
+                alpha22: None,
+                cfgs: vec![(ocs[0].clone(), vec![(2, 2)])],
+                alternate_junk: true,
+            },
+            Variant {
+                sid: "k2-swap",
+                masked: false,
+                jts: vec![JoinType::Inner, JoinType::Union],
+                alpha: vec![nul(1), live(0, 3, 1), live(1, 3, 1)],
                 alpha22: None,
                 cfgs: vec![(ocs[0].clone(), vec![(2, 2)])],
                 alternate_junk: true,
@@ -1501,7 +1528,7 @@ pub fn run(r: &Report) -> i32 {
          compiled (one compilation per join type x owner configuration x table sizes, then all table pairs over a reduced row alphabet): \
          thorough A: schema k2-diff, 6 owner configurations, sizes {1,2}^2, rows {null0,nullJ,k0,k1} (2x2: without null0); B: masked, 3 owner \
          configurations, sizes 1x1 and 2x1, every key-mask pattern; C: u8 key, 2 owner configurations, 2x2; D: 2-bit key, 2 owner configurations, 2x2; \
-         E: schema k1-cross-same (a data column of the first table named and typed like the key of the second), Inner/Left/Union, plain and masked; \
+         E: schema k1-cross-same (a data column of the first table named and typed like the key of the second), Inner/Left/Union, plain and masked; F: schema k2-swap (two tables of one type, crossed key map); \
          each pair in global mode, three-party mode with junk zeros and junk ones, and global mode with the hash matrices scripted so that two of the three \
          Cuckoo/simple hash functions are identical (every matched row is then found in two switched tables). quick: k2-diff with one size per owner configuration and \
          the 2-bit key 2x2 (Inner), three-party with junk alternating by pair index, global for Union/Full. \
